@@ -14,6 +14,21 @@ def run_msg(ctx, mode, clause_filter, mc_cfgs):
         ctx.mc(module, cfg, timeout=3000)
     tr = ctx.path(mode + ".ndjson")
     ctx.run_mvh(["msg", "-aux", mode, "-out", tr, "-seed", ctx.seed, "-tier", ctx.tier])
+    # the same probes of every definition with an 8-byte field on a 32-bit build of the library (GOARCH=386)
+    b386 = ctx.build_mvh_386()
+    tr386 = ctx.path(mode + "_386.ndjson")
+    ctx.run_mvh(["msg", "-aux", mode, "-out", tr386, "-seed", ctx.seed, "-tier", ctx.tier], binary=b386, env_extra={"VERIF_ONLY64": "1"})
+    n386 = 0
+    with open(tr, "a") as f:
+        for r in vf.read_ndjson(tr386):
+            if r["e"] == "DEF":
+                continue
+            r["arch"] = "386"
+            f.write(json.dumps(r) + "\n")
+            n386 += 1
+    ctx.cov["records_from_the_32_bit_build"] = n386
+    if n386 == 0:
+        raise vf.Inconclusive("the 32-bit build produced no records")
     defs = json.load(open(tr + ".defs.json"))
     parts = vf.split_ndjson(tr, vf.NCPU, ctx.path(mode + "part"))
     res = ctx.validate("Trace_Wire", [p for p, _ in parts], env={"DEFS": tr + ".defs.json"})
@@ -43,7 +58,7 @@ def run_msg(ctx, mode, clause_filter, mc_cfgs):
                     ignored[c] = ignored.get(c, 0) + 1
             if not mine:
                 continue
-            key = "%s:%s:%s" % (kind, "+".join(sorted(mine)), short_type(defs, r["d"]))
+            key = "%s:%s:%s%s" % (kind, "+".join(sorted(mine)), short_type(defs, r["d"]), ":386" if r.get("arch") == "386" else "")
             rr = dict(r)
             rr["def"] = defs[r["d"] - 1]
             ctx.finding(key, "%s record of %s rejected by clauses %s" % (kind, short_type(defs, r["d"]), mine), rr)
